@@ -68,6 +68,10 @@ func (e *Engine) intrinsic(fn *ssa.Function, args []Value) (Value, bool) {
 		// a few in-scope functions whose bodies are pure formatting
 		switch full {
 		case "(*github.com/buildkite/go-pipeline/warning.Warning).Error":
+			// the text is opaque, but the body is run for whatever it does to the
+			// warning itself (it should do nothing): formatting that the engine
+			// cannot follow ends the attempt, not the path
+			e.runForEffects(fn, args)
 			return e.opaqueStr(), true
 		}
 		return nil, false
@@ -1075,4 +1079,31 @@ func snapEq(e *Engine, a, b Value, seen map[[2]*Value]bool) *Term {
 		return mkBool(b == nil)
 	}
 	return tTrue // functions, types and other immutable values
+}
+
+// runForEffects executes an in-scope function whose result is modelled
+// elsewhere, keeping what it wrote; an unsupported construct inside it only
+// stops this execution (effects up to that point stay). Recursion into the
+// same function (nested warnings) is not followed.
+func (e *Engine) runForEffects(fn *ssa.Function, args []Value) {
+	if e.inEffectsRun {
+		return
+	}
+	e.inEffectsRun = true
+	depth := len(e.fnStack)
+	defer func() {
+		e.inEffectsRun = false
+		if r := recover(); r != nil {
+			if pe, ok := r.(pathEnd); ok && pe.kind == "unsupported" {
+				if len(e.fnStack) > depth {
+					e.fnStack = e.fnStack[:depth]
+				}
+				return
+			}
+			panic(r)
+		}
+	}()
+	if fn.Blocks != nil {
+		e.run(fn, args, nil)
+	}
 }
